@@ -415,12 +415,16 @@ def scenario(cfg, rnd, steps=8):
     """One seeded history on a real bandit."""
     rec = Recorder(cfg)
     labels = list(cfg.arms)
+    free = list(cfg.extra)
+    tiny = 0
     rewards = [0, 1] if (cfg.lp == "ts" and cfg.init_bin == "none") else [0, 1, 2, 3]
 
     def batch(n, force=None, whole=False):
         rows = []
         for i in range(n):
             pool = [a for a in rec.arms] or labels
+            if rec.events and free and rnd.random() < 0.12:
+                pool = list(free)        # a logged decision that is not (or no longer) an arm: stored, credited to no arm
             a = force[i] if force and i < len(force) else rnd.choice(pool)
             rows.append((a, rnd.choice(rewards), grid_points(cfg, rnd, 1, whole)[0]))
         return rows
@@ -434,7 +438,6 @@ def scenario(cfg, rnd, steps=8):
             first.append(batch(1)[0])
             pts = list({r[2] for r in first})
     rec.train("fit", first)
-    free = list(cfg.extra)
     for _ in range(steps):
         roll = rnd.random()
         if roll < 0.3:
@@ -447,6 +450,13 @@ def scenario(cfg, rnd, steps=8):
             kind = rnd.random()
             if kind < 0.45 and rec.rows:
                 x = rnd.choice(rec.rows)[2]          # a stored context
+            elif kind < 0.52 and cfg.np == "lsh" and rec.rows and cfg.ctx_unit == 1:
+                # a stored context scaled by a tiny or huge positive factor: the signs of the projections are unchanged
+                tiny += 1
+                row = rnd.choice(rec.rows)[2]
+                factor = rnd.choice([1e-9, 1e-12, 1e9])
+                rec.query(tuple([-999] * (cfg.dims - 1) + [-3000 - tiny]), real=[float(v) * factor for v in row])
+                continue
             elif kind < 0.6 and cfg.np == "lsh" and rec.rows:
                 x = tuple(v * rnd.choice([2, 3]) for v in rnd.choice(rec.rows)[2])   # positive multiple
             else:
@@ -457,7 +467,10 @@ def scenario(cfg, rnd, steps=8):
         elif roll < 0.92 and len(rec.arms) > 1:
             victim = rnd.choice(rec.arms)
             rec.remove_arm(victim)
-            free.append(victim)
+            if rnd.random() < 0.4:
+                rec.add_arm(victim)          # the same label comes back at once (at the end of the arm list)
+            else:
+                free.append(victim)
         else:
             rec.train("fit", batch(max(need, rnd.randrange(2, 6))))
         if cfg.np == "clusters" and rnd.random() < 0.5:
